@@ -194,6 +194,15 @@ def handleLazy (mode src : String) (obs : String) : String × Bool × String :=
     match unhex (src.drop 2).toString with
     | some v => fromLazy (mk (.gives (some v))) (if v = JsonFrame.nullLit then none else some (some v))
     | none => ("bad-case", false, "unparsable case")
+  else if src.startsWith "t:" then
+    -- typed Lazies (harness/run/c20.go `c20LazyTyped`): `t:<kind>:<hex of the value's canonical JSON text>`; the model is
+    -- generic in the element type, the value travels as its JSON text
+    match (src.splitOn ":") with
+    | [_, _, hx] =>
+      (match unhex hx with
+       | some v => fromLazy (mk (.gives (some v))) (if v = JsonFrame.nullLit then none else some (some v))
+       | none => ("bad-case", false, "unparsable case"))
+    | _ => ("bad-case", false, "unparsable case")
   else if src.startsWith "raw:" then
     match unhex (src.drop 4).toString with
     | some d => finish "-" d (some (if d = JsonFrame.nullLit then none else some d))
